@@ -368,6 +368,16 @@ impl<M: EqvFacade> EqvInterp<M> {
                     for (c, a) in self.m.eqv_cases(ty, el) {
                         let _ = write!(out, " {}({})", c, eqv_fmt_tuple(&a));
                     }
+                    // <enum>_case(el): must not panic and must return one of the cases
+                    let first = std::panic::catch_unwind(std::panic::AssertUnwindSafe(|| self.m.eqv_case(ty, el)));
+                    match first {
+                        Ok((c, a)) => {
+                            let _ = write!(out, " | {}({})", c, eqv_fmt_tuple(&a));
+                        }
+                        Err(_) => {
+                            let _ = write!(out, " | PANIC");
+                        }
+                    }
                     out.push('\n');
                 }
                 out.push_str("end\n");
